@@ -314,7 +314,7 @@ def per_path_both(ctx, po, sh):
 def body(ctx):
     ctx.cov['outside_claim'] = ['tuple-shaped flat structs / tuple child_parents hints (positions)', '#[parent] with a tuple-form counterpart; nested parents deeper than 2', 'depth > 2, more than 3 flat members', 'runtime values']
     ctx.assumptions = ['oracle = property statement: every prefix of a child path is one constructor typed by child_parents, holding all and only the members below it', 'decoder is structural; predicted == real tokens per path']
-    expander.sweep(ctx, ['child', 'parent'], per_path_both)
+    expander.sweep(ctx, ['child', 'parent'], per_path_both, judge_native=True)
 
 
 if __name__ == '__main__':
